@@ -115,6 +115,15 @@ class DropletBase:
     _merge_data: Callable[[np.ndarray, np.ndarray, np.ndarray], None]
     """Private method for merging droplet data, created by __init_subclass__"""
 
+    def __getstate__(self) -> dict[str, Any]:
+        # store the record as an array with a single item
+        return {"data": np.array([self.data])}
+
+    def __setstate__(self, state: dict[str, Any]) -> None:
+        # restore the record as a view into an array, so the data stays writeable;
+        # a record that is unpickled on its own silently discards all modifications
+        self.data = state["data"].view(np.recarray)[0]
+
     @classmethod
     def from_data(cls, data: np.recarray) -> DropletBase:
         """Create droplet class from a given data.
